@@ -434,7 +434,7 @@ fn eval(c: &Case) -> Outcome {
 
 pub fn run(tier: &str) -> Run {
     let mut run = Run::new("C12", tier);
-    let thorough = tier == "thorough";
+    let thorough = crate::util::wide(tier);
     let convs = conversions(thorough);
     let mut cases = Vec::new();
     for dt in 0..DATATYPES.len() {
